@@ -53,7 +53,7 @@ LongChosen == {LongName(i) : i \in 1..LongCount}
 Chosen == BaseChosen \cup ExtChosen \cup LongChosen
 
 \* probe options for the classification: the answer must not depend on where `out` is or whether it exists
-ProbeOpt(pres) == [preserve |-> pres, explicit |-> TRUE, chain |-> FALSE, form |-> "rel", preout |-> FALSE]
+ProbeOpt(pres) == [preserve |-> pres, explicit |-> TRUE, chain |-> FALSE, form |-> "rel", preout |-> FALSE, skip |-> TRUE, unread |-> {}]
 \* alone: entries whose own write fails (the run stops there), and entries whose LAST component is a look-alike -- it cannot
 \* carry the entry's index, so another entry of the same archive may need the same path as a directory
 SelfErr(n)   == \/ \E pres \in BOOLEAN : AbortsAlone(n.c, ProbeOpt(pres), Guard)
@@ -79,10 +79,27 @@ Wanted(g, ch, ex) == \/ Thorough \/ ~g.selferr
                      \* entries that are alone only because their last component is a look-alike: one (chain, explicit) pair
                      \/ /\ LookAlikeLast(g) /\ ch = (Parity(g) = 0) /\ ex = ((HashM(g.names[1], 4) \div 2) = 0)
 Product == {[names |-> g.names, hasroot |-> g.hasroot, hasparent |-> g.hasparent, selferr |-> g.selferr,
-             preserve |-> pres, chain |-> ch, explicit |-> ex]
-            : g \in Groups, pres \in BOOLEAN, ch \in BOOLEAN, ex \in BOOLEAN} 
+             preserve |-> pres, chain |-> ch, explicit |-> ex, entries |-> "present", skipmode |-> "rand"]
+            : g \in Groups, pres \in BOOLEAN, ch \in BOOLEAN, ex \in BOOLEAN}
 Selected == {c \in Product : Wanted(c, c.chain, c.explicit)}
-Numbered == LET q == SetToSeq(Selected) IN [i \in 1..Len(q) |-> [id |-> i] @@ q[i]]
+
+\* error paths: some entries cannot be read -- listed (or requested) but absent from the archive, or stored data corrupted --
+\* with --skip-errors on and off, for archives whose names have a `..` or a leading separator (in a packed archive every
+\* fourth entry is unreadable, a single entry is itself).  every packed archive; a seed-rotated quarter (thorough: eighth, with the full option product) of the single ones.
+ErrMod == IF Thorough THEN 8 ELSE 4
+ErrGroups == {g \in Groups : (g.hasroot \/ g.hasparent) /\ (~g.selferr \/ HashM(g.names[1], ErrMod) = SeedN % ErrMod)}
+ErrProduct == {[names |-> g.names, hasroot |-> g.hasroot, hasparent |-> g.hasparent, selferr |-> g.selferr,
+                preserve |-> pres, chain |-> ch, explicit |-> ex, entries |-> en, skipmode |-> sk]
+               : g \in ErrGroups, pres \in BOOLEAN, ch \in BOOLEAN, ex \in BOOLEAN, en \in {"absent", "corrupt"}, sk \in {"on", "off"}}
+ErrSelected == {c \in ErrProduct : /\ (c.selferr => c.preserve)
+                                   /\ Wanted(c, c.chain, c.explicit)}
+
+\* decoys: a file is planted wherever the unguarded deviation would write one of the case's entries outside the output directory
+\* (so that deleting / truncating / overwriting it is observable, not only creating it)
+DecoysOf(c) == IF ~c.preserve THEN <<>>
+               ELSE SetToSeq(UNION {{p \in DeviationTarget(ConcName(c.names[i], i - 1), ProbeOpt(TRUE)) : ~Below(OutAbs, p)}
+                                    : i \in {j \in 1..Len(c.names) : BadForGuard(c.names[j].c)}})
+Numbered == LET q == SetToSeq(Selected) \o SetToSeq(ErrSelected) IN [i \in 1..Len(q) |-> [id |-> i, decoys |-> DecoysOf(q[i])] @@ q[i]]
 
 ASSUME ndJsonSerialize(IOEnv.CASES, Numbered)
 ASSUME PrintT(<<"GENERATED", Len(Numbered), "cases", Cardinality(Chosen), "names", Cardinality(Groups), "archives">>)
